@@ -198,7 +198,8 @@ def random_cfg(rng):
                 soft=rng.choice([None, None, 2, 4]), hard=rng.choice([None, None, 3, 6]),
                 lost=rng.choice([None, None, 3]),
                 max_restarts=rng.choice([None, 1, 2, 3, 100]), max_restart_freq=rng.choice([1, 5]),
-                putlocks=rng.random() < 0.5, enable_timeouts=rng.random() < 0.5)
+                putlocks=rng.random() < 0.5, enable_timeouts=rng.random() < 0.5,
+                accept_raises=rng.random() < 0.3)      # harness only: every second accept callback raises
 
 
 def gen_requests(rng, n, length=(5, 45), focus=None, cfg=None):
@@ -620,6 +621,13 @@ def mon_C10(case, obs):
             stuck = [k for k in failed if o['jobs'][k]['incache']]
             if stuck:
                 out.append(('C10:unsent-job-stays-in-cache', 'apply job(s) %s failed because the task could not be sent and are still in the cache (nobody will ever acknowledge them)' % stuck))
+        if e[0] == 'ready' and n and not o['exc']:
+            for k, j in _apply_jobs(o):
+                if k < len(obs[n - 1]['jobs']) and not obs[n - 1]['jobs'][k]['ready'] and j['ready'] \
+                        and j.get('sem_at_cb') is not None and j['sem_at_cb'] != v:
+                    out.append(('C10:slot-not-back-when-callback-runs',
+                                'job %d: its result callback ran (event %d) while %d slots were free; %d are free once the result has been handled -- a callback that submits the next job would wait for the slot it is about to be given'
+                                % (k, n, j['sem_at_cb'], v)))
         if v < 0 or v > b:
             out.append(('C10:semaphore-out-of-bounds', 'value %d bound %d after event %d %s' % (v, b, n, e)))
         if b != o['nprocs']:
@@ -1205,6 +1213,20 @@ def mon_C07_closed(case, obs):
     return out
 
 
+def mon_C07_owner_recorded(case, obs):
+    """an acknowledged apply job records the worker that acknowledged it, whatever its accept
+    callback does: the consumed-result credit (and with it a prompt exit after close()) needs it"""
+    out = []
+    for n, (e, o) in enumerate(zip(case['events'], obs)):
+        if e[0] == 'ack' and n and not o['exc'] and e[1] < len(obs[n - 1]['jobs']):
+            pj = obs[n - 1]['jobs'][e[1]]
+            if pj['kind'] == 'apply' and pj['incache'] and e[1] < len(o['jobs']) and o['jobs'][e[1]]['wpids'] != [e[3]]:
+                out.append(('C07:owner-not-recorded-at-acceptance',
+                            'apply job %d was acknowledged by worker %d at event %d but records %s as its workers'
+                            % (e[1], e[3], n, o['jobs'][e[1]]['wpids'])))
+    return out
+
+
 def mon_C07_started_after_close(case, obs):
     """once close() has been called the pool starts no worker: it would never be sent a sentinel"""
     out = []
@@ -1246,7 +1268,7 @@ MONITORS['C01'].append(mon_C01_unsent)
 MONITORS['C01'].append(mon_C01_terminated)
 MONITORS['C01'].append(mon_C01_unresolved)
 MONITORS['C01'].append(mon_C01_feed)
-MONITORS['C07'] = [mon_known_C07, mon_C01, mon_C07_closed, mon_C07_credit, mon_C07_started_after_close]
+MONITORS['C07'] = [mon_known_C07, mon_C01, mon_C07_closed, mon_C07_credit, mon_C07_started_after_close, mon_C07_owner_recorded]
 MONITORS['C09'].append(mon_C07_started_after_close)
 
 
